@@ -89,7 +89,12 @@ C07_TableWhole(s, o) ==
     LET inTable == {i \in 1..Len(o.htm) : o.htm[i].t /\ Known(s, o.htm[i])}
         kept    == {s.nodes[o.htm[i].n].t : i \in inTable} \ {0}
         E       == WordsOf(o.htm)
-    IN  \A t \in kept : \A n \in TableNodes(s, t) : \A k \in 1..s.nodes[n].w : <<n, k>> \in E
+    IN  /\ \A t \in kept : \A n \in TableNodes(s, t) : \A k \in 1..s.nodes[n].w : <<n, k>> \in E
+        \* ... and with all of its rows and cells: every table of the output that can be traced to a source table
+        \* holds as many rows and cells as a reader sees in that one (rows without cells count as well)
+        /\ \A x \in 1..Len(o.outtables) :
+               LET ot == o.outtables[x] IN
+               (ot.t # 0 /\ ot.t <= Len(s.tables)) => (ot.rows = s.tables[ot.t].rows /\ ot.cells = s.tables[ot.t].cells)
 
 (***************************************************************************)
 (* C08 - media follow the preceding text block, modulo one lead image.     *)
